@@ -26,7 +26,7 @@ ASSUMPTIONS = [
     "non-termination is approximated by a 10 s wall-clock guard per byte string (normal decode time << 1 ms), confirmed with 30 s before it is reported",
     "truncation clause only for descriptions without objects that the end of the PDU may terminate (MIN-MAX-LENGTH values, end-of-pdu / end-marker fields); 'value-carrying' = bits claimed by a parameter in the reference's used mask",
 ]
-MUST_HIT = ["tail-reserved", "sfield-dynamic-items", "tail-default-value", "truncation-clause:announced-extent", "truncation-inside-field-item", "layer-case", "prefix", "mutation", "short", "random", "overlong", "entry:obj", "entry:layer", "entry:service",
+MUST_HIT = ["repetition-checked", "tail-reserved", "sfield-dynamic-items", "tail-default-value", "truncation-clause:announced-extent", "truncation-inside-field-item", "layer-case", "prefix", "mutation", "short", "random", "overlong", "entry:obj", "entry:layer", "entry:service",
             "entry:decode_response", "regime:error", "regime:default", "outcome:DecodeError", "outcome:returned",
             "truncation-clause", "somersault"]
 DYNAMIC = {"dct:minmax", "dct:leading", "dct:paramlen", "dlfield", "eopf", "mux", "emfield", "table", "envdata"}
@@ -51,7 +51,7 @@ def _fail(clause, detail, case, extra=None):
     return core.Failure(clause=clause, detail=detail, case=core.plain(case), features=f)
 
 
-def probe(ld, case, data: bytes, regime: str, cls: set, lv=None) -> list:
+def probe(ld, case, data: bytes, regime: str, cls: set, lv=None, log=None) -> list:
     """decode `data` through every entry point under one warning regime"""
     from odxtools.exceptions import DecodeError
     fails = []
@@ -75,11 +75,15 @@ def probe(ld, case, data: bytes, regime: str, cls: set, lv=None) -> list:
             try:
                 r = fn()
                 cls.add("outcome:returned")
+                if log is not None:
+                    log[(name, regime, data)] = "returned"
                 if name == "obj" and lv is not None and (len(data) < lv if lv >= 0 else True):
                     fails.append(_fail("truncated-accepted", f"{data.hex()} ({len(data)} bytes, description needs {lv}) "
                                                              f"decoded to {r!r}", dict(case, data=data.hex(), regime=regime)))
             except DecodeError:
                 cls.add("outcome:DecodeError")
+                if log is not None:
+                    log[(name, regime, data)] = "DecodeError"
             except _Timeout:
                 fails.append(_fail("non-termination", f"{name}({data.hex()}) did not return within 10 s",
                                    dict(case, data=data.hex(), regime=regime), {"entry": name}))
@@ -167,6 +171,7 @@ def eval_case(case, res: core.ShardResult | None = None, kf=None, budget: int = 
         rnd.shuffle(rest)
         strings = keep + rest[:max(0, budget - len(keep))]
     seen_buckets = set()
+    outcome_log: dict = {}
     for kind, data in strings:
         for regime in ("default", "error"):
             cls = {kind, "regime:" + regime}
@@ -187,7 +192,7 @@ def eval_case(case, res: core.ShardResult | None = None, kf=None, budget: int = 
                     cls.add("truncation-inside-field-item")
                     lv2 = -1      # must be rejected whatever its length
             c2 = dict(case, lv=lv2) if lv2 is not None else case
-            fs = probe(ld, c2, data, regime, cls, lv2)
+            fs = probe(ld, c2, data, regime, cls, lv2, log=outcome_log if len(outcome_log) < 400 else None)
             if res is not None:
                 nt = data != pdu and (kind == "prefix" or len(data) >= constlen)
                 res.note({"msg_digest": core.digest(case["msg"]).hex(), "data": data.hex(), "kind": kind}, nt, cls,
@@ -201,6 +206,21 @@ def eval_case(case, res: core.ShardResult | None = None, kf=None, budget: int = 
                 if f.bucket() not in seen_buckets:
                     seen_buckets.add(f.bucket())
                     fails.append(f)
+    # decoding is a function of the bytes: asking again (same objects, same regime) gives the same kind of outcome
+    if not fails:
+        again: dict = {}
+        keys = [k_ for k_, v in outcome_log.items() if v == "DecodeError"][:45] + [k_ for k_, v in outcome_log.items() if v != "DecodeError"][:15]
+        for (name, regime, data) in keys:
+            probe(ld, case, data, regime, set(), None, log=again)
+        for k_, v in again.items():
+            if outcome_log.get(k_) not in (None, v):
+                f = _fail("outcome-changes-on-repetition", f"{k_[0]}({k_[2].hex()}) [{k_[1]}]: first {outcome_log[k_]}, "
+                          f"later {v}", dict(case, data=k_[2].hex(), regime=k_[1]))
+                if kf is None or known.match(kf, f) is None:
+                    fails.append(f)
+                break
+        if res is not None:
+            res.classes["repetition-checked"] += 1
     return fails
 
 
@@ -458,8 +478,11 @@ def case_strategy():
 
     @st.composite
     def s(draw):
-        focus = draw(st.sampled_from([None, None, None, "sfield", "sfield", "dlfield", "mux", "eopf", "emfield"]))
-        c = draw(gen.message_case(opts={"table_struct_first": True, "texttable_pct": 30, "focus": focus}))
+        focus = draw(st.sampled_from([None, None, None, "sfield", "sfield", "dlfield", "mux", "eopf", "emfield", "dtc"]))
+        o = {"table_struct_first": True, "texttable_pct": 30, "focus": focus}
+        if focus == "dtc":
+            o["dtc_r"] = tuple(range(56, 72))
+        c = draw(gen.message_case(opts=o))
         static_msg = not (set(c["features"]) & (DYNAMIC | {"nrc", "table-struct-listed-first"}))
         tail_kind = draw(st.integers(0, 9))
         if static_msg and tail_kind in (3, 4):
